@@ -27,7 +27,7 @@ def histograms(rng, tier):
     add("only-lengths", [0] * 257 + [9] * 29, [1] * 30)
     add("one-distance", [4] * 286, [0] * 7 + [1000])
     add("steep", [1] * 200 + [1 << 30] * 86, [1, 1 << 40])
-    for i in range(6 if tier == "quick" else 60):
+    for i in range(24 if tier == "quick" else 120):
         k = rng.choice([2, 5, 30, 286]); sh = rng.choice([0, 8, 30, 43])
         ll = [0] * 286
         for s in rng.sample(range(286), k): ll[s] = rng.randrange(1, 1 << rng.choice([1, 8, 20])) << rng.randrange(sh + 1)
@@ -83,6 +83,12 @@ def run(tier, replay=None):
                 add(api="deflate", inp=data, level=0, wrap=[0, 1, 3][k % 3], table=table, dictmode=3, dct=hist_bytes(ll + d),
                     calls=[[step, [1 << 16, 50][(k // 2) % 2], flush, 1] for _ in range(len(data) // step + 2)], tail_ao=1 << 16, meta={"hist": name, "table": table}); k += 1
             add(api="deflate_stateless", inp=data, level=0, wrap=0, table=table, dictmode=3, dct=hist_bytes(ll + d), calls=[[len(data), 4000, 0, 1]], meta={"hist": name, "table": table})
+            # a long constant run first (the one-shot repeated-character fast path), then data: the custom header is then written
+            # at an arbitrary bit offset through the unaligned one-shot path
+            for r in ((0, 3) if tier == "quick" else (0, 1, 2, 3, 5, 7, 11)):
+                pre = [[0, 255][(k + r) % 2]] * (4096 + r * 37 + k % 5)
+                add(api="deflate_stateless", inp=pre + data[:300], level=0, wrap=[0, 1][r % 2], table=table, dictmode=3, dct=hist_bytes(ll + d),
+                    calls=[[len(pre) + 300, 6000, 0, 1]], meta={"hist": name, "table": table}); k += 1
     for cls, n in datas:
         data = igz.corpus(rng, cls, n)
         for table in (2, 3):
